@@ -59,7 +59,7 @@ def prop(pid, **kw):
 
 prop("C01",
      specgen=(40, 500),
-     scripts=lambda tier, rnd: S.basic() + S.collision() + S.stop_points() + S.reaction_table() + S.gated() + S.api_races() +
+     scripts=lambda tier, rnd: S.basic() + S.collision() + S.stop_points() + S.reaction_table() + S.gated() + S.api_races() + S.two_sessions() + S.pm_busy() +
      sample(S.pacing(), rnd, 200 if tier == "thorough" else 30) + S.collision_racy(rnd, 60 if tier == "thorough" else 10) +
      (S.damping() + S.writers() + S.registry(rnd, 120) if tier == "thorough" else sample(S.damping(), rnd, 10)),
      mc=lambda tier: [mc_pair(["openLo", "ka"])] if tier == "quick" else
@@ -84,7 +84,8 @@ prop("C07",
 
 prop("C09",
      specgen=(40, 500),
-     scripts=lambda tier, rnd: S.reaction_table() + (S.notif_values(rnd, 200 if tier == "thorough" else 30)) +
+     scripts=lambda tier, rnd: S.reaction_table() + S.fin_mid_message() + sample(S.two_sessions(), rnd, 21 if tier == "thorough" else 8) +
+     (S.notif_values(rnd, 200 if tier == "thorough" else 30)) +
      sample(S.trailing(), rnd, 176 if tier == "thorough" else 30) + sample(S.pacing(), rnd, 60 if tier == "thorough" else 15),
      mc=lambda tier: [mc_pair(["openLo", "ka", "upd"], conns=1, msgs=3)] if tier == "quick" else
      [mc_pair(["openLo", "ka", "upd", "cease", "notif", "fault", "openBad"], conns=1, msgs=3, dials=2),
@@ -95,7 +96,7 @@ prop("C09",
 
 prop("C10",
      specgen=(40, 500),
-     scripts=lambda tier, rnd: S.stop_points() + S.gated() + S.api_races() + S.stop_dial_race(12 if tier == "thorough" else 3) +
+     scripts=lambda tier, rnd: S.stop_points() + S.gated() + S.api_races() + S.pm_busy() + S.stop_dial_race(12 if tier == "thorough" else 3) +
      S.stop_everywhere(rnd, 400 if tier == "thorough" else 60),
      mc=lambda tier: [mc_pair(["openLo", "ka"])] if tier == "quick" else
      [mc_pair(["openLo", "ka", "upd"], dials=2), mc_pair(["openHi", "ka", "notif"], dials=2)],
@@ -107,7 +108,7 @@ prop("C10",
 
 prop("C12",
      specgen=(30, 400),
-     scripts=lambda tier, rnd: S.damping() + S.damping_exact() + (S.damping_matrix() if tier == "thorough" else sample(S.damping_matrix(), rnd, 60)) + S.collision_racy(rnd, 40 if tier == "thorough" else 12) +
+     scripts=lambda tier, rnd: S.damping() + S.damping_exact() + sample(S.fin_mid_message(), rnd, 24 if tier == "thorough" else 8) + (S.damping_matrix() if tier == "thorough" else sample(S.damping_matrix(), rnd, 60)) + S.collision_racy(rnd, 40 if tier == "thorough" else 12) +
      (S.damping_random(rnd, 150) if tier == "thorough" else S.damping_random(rnd, 15)),
      mc=lambda tier: [mc_pair(["openLo", "ka", "notif"])] if tier == "quick" else
      [mc_pair(["openLo", "ka", "notif", "cease"], dials=2), mc_pair(["openLo", "ka", "fault", "openBad"], dials=2)],
@@ -125,7 +126,7 @@ prop("C11",
           "cooperative remote; dial attempts carry exact virtual timestamps; non-trivial = at least two dial attempts (or passive)")
 
 prop("C06",
-     scripts=lambda tier, rnd: S.holdgrid() if tier == "quick" else
+     scripts=lambda tier, rnd: S.two_sessions() + S.slow_callbacks() + S.holdgrid() if tier == "quick" else S.two_sessions() + S.slow_callbacks() +
      S.holdgrid([(a, b) for a in (0, 3, 4, 9, 10, 30, 90, 180, 240, 65535) for b in (0, 3, 4, 9, 10, 30, 90, 180, 240, 65535)],
                 rnd, 60),
      mc=lambda tier: [mc_pair(["openLo", "ka", "upd"], conns=1, msgs=3)],
@@ -134,14 +135,15 @@ prop("C06",
           "KEEPALIVE and Hold Timer Expired NOTIFICATION must carry exactly the specified virtual timestamp")
 
 prop("C04",
-     scripts=lambda tier, rnd: S.writers() + S.writers_random(rnd, 120 if tier == "thorough" else 12),
+     scripts=lambda tier, rnd: S.writers() + S.two_sessions() + S.slow_callbacks() + S.writers_random(rnd, 120 if tier == "thorough" else 12),
      mc=lambda tier: [mc_pair(["openLo", "ka", "upd"], conns=1, msgs=3)],
      nontrivial=lambda s, r: any(e["e"] == "ret" and e["n"] in ("write", "writeCb") for e in syscheck.events_of(r)),
      rule="WriteUpdate from callbacks and from application goroutines x body lengths {0,1,4077} x keepalive collisions x "
           "teardown kinds x stale writers; every conn.Write must be exactly one well-formed frame")
 
 prop("C03",
-     scripts=lambda tier, rnd: S.segmentation(rnd) + (S.segmentation_long(rnd, 10) if tier == "thorough" else []),
+     scripts=lambda tier, rnd: S.segmentation(rnd) + S.two_sessions() + S.gated_update_eof() +
+     (S.segmentation_long(rnd, 10) if tier == "thorough" else []),
      mc=lambda tier: [mc_pair(["openLo", "ka", "upd"], conns=1, msgs=3)],
      nontrivial=lambda s, r: has_cb(r, "Update"),
      end_oracles={"intact"},
@@ -176,7 +178,7 @@ prop("C14",
           "the OPEN on the wire must equal Open!OpenMsg byte for byte, or no OPEN at all when unrepresentable")
 
 prop("C13",
-     scripts=lambda tier, rnd: S.admission() + S.multi_listener() + sample(S.inbound_drop(), rnd, 22 if tier == "thorough" else 8),
+     scripts=lambda tier, rnd: S.admission() + S.multi_listener() + S.pm_busy() + sample(S.inbound_drop(), rnd, 22 if tier == "thorough" else 8),
      mc=lambda tier: [mc_pair(["openLo", "ka", "notif"], conns=3 if tier == "thorough" else 2, msgs=2)],
      nontrivial=lambda s, r: any(e["e"] == "acc" for e in syscheck.events_of(r)),
      rule="peer sets x (source, destination) pairs incl. IPv6 and IPv4-mapped x peer state at arrival; a refused connection "
